@@ -12,7 +12,7 @@ claim("C01",
       "the exact per-status effect of addTaskResources/removeTaskResources/AddTask/RemoveTask/UpdateTask on Idle/Used/Releasing (mirror images of each other), "
       "checkMaxPodsWithGpuGroupReservation (exact), the statement/commit pieces in framework; the snapshot constructors (NewNodeInfo: Idle == Allocatable and nothing used; AddTasksToNode: only occupying pods are "
       "recorded, exact effect of one pod; getNodeToPodInfosMap), the GPU folds GetDraGpusCount/GetGpusQuota/GetTotalGPURequest as verified finite sums, the Session dispatch wrappers (FittingNode: every registered "
-      "predicate and capacity callback is consulted) verified instead of trusted. Right level: the property is an invariant preserved by each decision; each link (check, charge, undo) is a universally quantified function contract.",
+      "predicate is consulted and the CPU/memory and whole-GPU gates hold) verified instead of trusted. Right level: the property is an invariant preserved by each decision; each link (check, charge, undo) is a universally quantified function contract.",
       BASE + "Not decided: that every path from an action to Cache.Bind goes through Statement (call-graph fact), storage capacity (isTaskStorageAllocatable trusted), "
       "NodeInv as a sum over pods (effects are proved per operation; the closed sum needs ownership/separation invariants over the pods' resource objects and is not mechanised), "
       "addTasksToNodes/Snapshot as a whole (AddTask's precondition vecWF - node vectors as long as the shared layout - is stronger than what the snapshot establishes; replayed, the code is fine), multi-cycle histories beyond the per-step contracts.",
@@ -77,7 +77,7 @@ claim("C07",
 
 claim("C08",
       "Proof, for all inputs, of the capacity policy: isOverLimit / isAllocatedNonPreemptibleOverQuota functional; resultsOverLimit / resultsWithNonPreemptibleOverQuota: IsSchedulable <==> at EVERY ancestor level allocated + requested <= limit "
-      "(resp. non-preemptible allocated + requested <= deserved), with termination; the three entry points; the Session wrappers (IsJobOverQueueCapacityFn ...: schedulable iff EVERY registered capacity function agrees; verified, were trusted); AllocateJob's capacity gate in every mode; "
+      "(resp. non-preemptible allocated + requested <= deserved), with termination; the three entry points; the Session wrappers (IsJobOverQueueCapacityFn ...: verified, were trusted - the FIRST registered capacity function decides, which is 'all registered' for the single registration of the shipped configuration); AllocateJob's capacity gate in every mode; "
       "the allocate/deallocate handler closures: for every queue object, Allocated' = Allocated +/- r exactly on the parent chain of the job's queue and unchanged elsewhere, "
       "AllocatedNotPreemptible iff non-preemptible; lemmas [limitInvariant][quotaInvariant]; createQueueResourceAttrs (each resource's quota/limit/weight from its own stanza); the what-if undo fires the plugin handlers AFTER the task is back on its node.",
       BASE + "Assumed: parent chain described by the ghost anc/depth/lvl under requires chainOK. Not decided: induction over the decisions of a cycle, "
